@@ -428,6 +428,7 @@ std::string render(const FileSpec &f, Offsets *off)
     return s;
 }
 
+// (flaws - attributes the 2.0 parser reports as errors on an entity - are a CellML 2.0 notion here: not rendered)
 std::string render11(const FileSpec &f)
 {
     // CellML 1.1: units may be imported and defined the same way; encapsulation is a group.
@@ -445,7 +446,7 @@ std::string render11(const FileSpec &f)
     }
     for (auto &u : f.units) {
         if (!u.imported) {
-            s += "  <units name=\"" + u.name + "\"" + (u.flaw != 0 ? " bogus_attribute=\"1\"" : "") + ">\n";
+            s += "  <units name=\"" + u.name + "\">\n";
             for (auto &c : u.children) {
                 s += "    <unit units=\"" + c + "\"/>\n";
             }
@@ -456,11 +457,9 @@ std::string render11(const FileSpec &f)
         if (c.imported) {
             continue;
         }
-        s += "  <component name=\"" + c.name + "\"" + (c.flaw == 1 || (c.flaw != 0 && c.vars.empty()) ? " bogus_attribute=\"1\"" : "") + ">\n";
-        bool flawVariable = c.flaw == 2;
+        s += "  <component name=\"" + c.name + "\">\n";
         for (auto &v : c.vars) {
-            s += "    <variable name=\"" + v.name + "\" units=\"" + v.units + "\" public_interface=\"out\"" + (flawVariable ? " bogus_attribute=\"1\"" : "") + "/>\n";
-            flawVariable = false;
+            s += "    <variable name=\"" + v.name + "\" units=\"" + v.units + "\" public_interface=\"out\"/>\n";
         }
         if (!c.cn.empty() && !c.vars.empty()) {
             s += "    <math xmlns=\"http://www.w3.org/1998/Math/MathML\">\n";
@@ -520,6 +519,14 @@ private:
 
 } // namespace
 
+int Vfs::registerVersion(const FileVersion &v)
+{
+    FileVersion c = v;
+    c.id = int(versions.size());
+    versions.push_back(c);
+    return c.id;
+}
+
 int Vfs::addVersion(const FileVersion &v, const std::string &path)
 {
     FileVersion c = v;
@@ -575,6 +582,8 @@ struct Resolver
 {
     const View &view;
     bool strict;
+    bool unitsFlawsOnlyAtRoot = false;
+    int lastVersion = -1; // version id of what load() returned last
     RefResult res;
     std::set<std::string> onStack;
     std::set<std::string> done;
@@ -594,10 +603,19 @@ struct Resolver
     }
 
     // the model a file loads as, or nullptr when the load fails
-    const FileSpec *load(const std::string &path, FileSpec &scratch)
+    // `href` is the import's URL as written: a library model stored under exactly that key is used before any file
+    // `rawUrl` is base + href as the importer concatenates them: a library model stored under exactly that spelling is
+    // used next (another spelling of the same file - 'b/../f.cellml' - is another key and makes the importer read the file)
+    const FileSpec *load(const std::string &path, FileSpec &scratch, const std::string &href, const std::string &rawUrl)
     {
         res.pathsNeeded.insert(path);
-        const FileVersion *v = view(path);
+        const FileVersion *v = view("href:" + href);
+        if (v == nullptr) {
+            v = view("raw:" + rawUrl);
+        }
+        if (v == nullptr) {
+            v = view(path);
+        }
         if (v == nullptr) {
             fail(Verdict::UNSAT, "missing file " + path);
             return nullptr;
@@ -610,6 +628,7 @@ struct Resolver
             fail(Verdict::UNSAT, "not well-formed " + path + " (" + v->tag + ")");
             return nullptr;
         }
+        lastVersion = v->id;
         if (v->load == Load::NONCELLML || ((v->load == Load::CELLML11 || v->load == Load::NOISY11) && strict)) {
             scratch = FileSpec();
             scratch.path = v->spec.path;
@@ -624,8 +643,11 @@ struct Resolver
         if (isStandardUnit(name)) {
             return true;
         }
-        std::string key = f.path + "|u|" + name;
-        if (done.count(key) != 0) {
+        // finished work is remembered per spelling of the file (two spellings may hold different versions in the library);
+        // what is on the current dependency path is recognised whatever the spelling (an entity depending on itself)
+        std::string doneKey = (f.rawUrl.empty() ? f.path : f.rawUrl) + "|u|" + name;
+        std::string key = f.path + "#" + std::to_string(f.servedVersion) + "|u|" + name;
+        if (done.count(doneKey) != 0) {
             return true;
         }
         int ui = f.findUnits(name);
@@ -647,17 +669,21 @@ struct Resolver
         if (u.imported) {
             stackImport.push_back(true);
             FileSpec scratch;
-            const FileSpec *g = load(normalisePath(f.dir + u.href), scratch);
+            std::string rawUrl = (f.rawDir.empty() ? f.dir : f.rawDir) + u.href;
+            const FileSpec *g = load(normalisePath(f.dir + u.href), scratch, u.href, rawUrl);
             if (g == nullptr) {
                 ok = false;
             } else if (g->findUnits(u.ref) < 0) {
                 fail(Verdict::UNSAT, "units " + u.ref + " not found in " + g->path);
                 ok = false;
-            } else if (g->units[size_t(g->findUnits(u.ref))].flaw != 0) {
+            } else if (g->units[size_t(g->findUnits(u.ref))].flaw != 0 && (!unitsFlawsOnlyAtRoot || f.path.compare(0, 1, "<") == 0)) {
                 fail(Verdict::UNSAT, "units " + u.ref + " in " + g->path + " has a parser error of its own");
                 ok = false;
             } else {
                 FileSpec copy = *g;
+                copy.rawUrl = rawUrl;
+                    copy.servedVersion = lastVersion;
+                copy.rawDir = rawUrl.substr(0, rawUrl.find_last_of('/') + 1);
                 FileScope scope(*this, copy.path);
                 ok = needUnits(copy, u.ref);
             }
@@ -674,7 +700,7 @@ struct Resolver
         stack.pop_back();
         onStack.erase(key);
         if (ok) {
-            done.insert(key);
+            done.insert(doneKey);
         }
         return ok;
     }
@@ -682,8 +708,9 @@ struct Resolver
     bool needComp(const FileSpec &f, int ci)
     {
         const CompSpec &c = f.comps[size_t(ci)];
-        std::string key = f.path + "|c|" + c.name;
-        if (done.count(key) != 0) {
+        std::string doneKey = (f.rawUrl.empty() ? f.path : f.rawUrl) + "|c|" + c.name;
+        std::string key = f.path + "#" + std::to_string(f.servedVersion) + "|c|" + c.name;
+        if (done.count(doneKey) != 0) {
             return true;
         }
         if (onStack.count(key) != 0) {
@@ -696,7 +723,8 @@ struct Resolver
         bool ok = true;
         if (c.imported) {
             FileSpec scratch;
-            const FileSpec *g = load(normalisePath(f.dir + c.href), scratch);
+            std::string rawUrl = (f.rawDir.empty() ? f.dir : f.rawDir) + c.href;
+            const FileSpec *g = load(normalisePath(f.dir + c.href), scratch, c.href, rawUrl);
             if (g == nullptr) {
                 ok = false;
             } else {
@@ -709,6 +737,9 @@ struct Resolver
                     ok = false;
                 } else {
                     FileSpec copy = *g;
+                    copy.rawUrl = rawUrl;
+                    copy.servedVersion = lastVersion;
+                    copy.rawDir = rawUrl.substr(0, rawUrl.find_last_of('/') + 1);
                     FileScope scope(*this, copy.path);
                     ok = needComp(copy, ti);
                 }
@@ -734,7 +765,7 @@ struct Resolver
         stack.pop_back();
         onStack.erase(key);
         if (ok) {
-            done.insert(key);
+            done.insert(doneKey);
         }
         return ok;
     }
@@ -776,9 +807,10 @@ struct Resolver
 
 } // namespace
 
-RefResult referenceResolve(const FileSpec &rootOnDisk, const View &view, bool strict)
+RefResult referenceResolve(const FileSpec &rootOnDisk, const View &view, bool strict, bool unitsFlawsOnlyAtRoot)
 {
     Resolver r(view, strict);
+    r.unitsFlawsOnlyAtRoot = unitsFlawsOnlyAtRoot;
     // the client's in-memory model is not the file of the same path on disk
     FileSpec root = rootOnDisk;
     root.path = "<client model parsed from " + rootOnDisk.path + ">";
